@@ -1,0 +1,42 @@
+//go:build verif
+
+// Contracts for the deductive verification in /verif (govc). Comment-only:
+// with the build tag off this file is not compiled, with it on it declares nothing.
+package jsonrpc2
+
+// ---------------------------------------------------------------------------
+// C18 (framing part): ghost out(c) = bytes accepted by connection c,
+// in(r) = unread input of the buffered reader r.
+
+// A successful Write appends exactly one frame: the header counts the bytes of
+// exactly what follows it.
+//@ func (*stream) Write [C18]
+//@   requires s != nil
+//@   modifies out(s.conn), failedDuring
+//@   ensures implies(result1 == nil, out(s.conn) == cat(old(out(s.conn)), "Content-Length: ", itoa(len(data)), "\r\n\r\n", data))
+//@   ensures implies(result1 == nil, result0 == len("Content-Length: ") + len(itoa(len(data))) + 4 + len(data))
+//@   ensures implies(result1 == nil, failedDuring == old(failedDuring))
+
+// Read: no panic on any input (index, slice and allocation obligations of the
+// safety sweep); success only if a positive length header was seen and exactly
+// that many bytes following the blank line were consumed and decoded;
+// truncated input, a header line without colon, a non-numeric / zero /
+// negative length, or no length header all return a non-nil error.
+//@ func (*stream) Read [C18]
+//@   requires s != nil && s.in != nil
+//@   modifies in(s.in), failedDuring
+//@   loop 1 invariant length >= 0 && total >= 0
+//@   loop 1 invariant failedDuring == old(failedDuring)
+//@   let FR = in(s.in) @ before io.ReadFull#1
+//@   let LEN = length @ before io.ReadFull#1
+//@   let DATA = data @ before DecodeMessage#1
+//@   ensures implies(result2 == nil, LEN > 0 && len(FR) >= LEN && DATA == FR[:LEN] && in(s.in) == FR[LEN:])
+//@   ensures implies(result2 == nil, failedDuring == old(failedDuring))
+
+// Frames of concurrent senders never interleave: the whole frame is written
+// while the write mutex is held.
+//@ func (*conn) write [C18]
+//@   requires c != nil && !held(c.writeMu)
+//@   modifies failedDuring
+//@   assert before c.stream.Write#1: held(c.writeMu)
+//@   ensures !held(c.writeMu)
